@@ -45,6 +45,11 @@ var c16LineFaults = []struct{ Name, Line string }{
 	{"entry RE2 rejects", "a(b"},
 	{"entry RE2 rejects (bad repeat)", "a**{"},
 	{"unknown processor", "##!> frobnicate"},
+	{"unknown processor with arguments", "##!> frobnicate one two"},
+	{"unknown processor with a number", "##!> frobnicate 42"},
+	{"definition without a value", "##!> define my-name"},
+	{"definition with two values", "##!> define name a b"},
+	{"include with a stray argument", "##!> include inc extra"},
 	{"unknown cmdline type", "##!> cmdline beos"},
 	{"cmdline without type", "##!> cmdline"},
 	{"extra end marker", "##!<"},
